@@ -248,6 +248,10 @@ def constness_probes():
     out.append(("const:if_false_else_in_func", HDR + "def regulate(level):\n    if False:\n        d1.Setting = 0\n    elif level > 50:\n        d1.Setting = 1\n    else:\n        d1.Setting = 2\n\nwhile True:\n    yield_()\n    regulate(d0.Setting)\n    if 1 > 2:\n        d2.Setting = 7\n    else:\n        d2.Setting = 8\n"))
     out.append(("const:named_false_else", HDR + "USE_HEATER = False\nLEVEL = 0\n\ndef report(v):\n    db.Setting = v\n    return v + 1\n\nx = d0.Setting\nif USE_HEATER:\n    db.On = 1\nelse:\n    d1.Setting = report(x)\nif LEVEL:\n    db.Mode = 1\nelse:\n    db.Mode = x\nd2.Setting = 99\n"))
     out.append(("const:if_true_else", HDR + "x = d0.Setting\nif True:\n    db.Setting = x\nelse:\n    db.Setting = 1\nif 2 > 1:\n    db.Mode = x + 1\nelif x:\n    db.Mode = 5\n"))
+    out.append(("const:or_and_const_operand", HDR + "MASK = 4\nx = d0.Setting\ndb.Setting = MASK or x\ndb.Mode = 5 or x\ndb.On = 0 and x\ndb.Open = x or 4\ndb.Lock = 6 and x\nd1.Setting = MASK or x or 8\nd1.Mode = 0 or x\n"))
+    for i, (a_, b_) in enumerate([(2, 2), (2, 3), (3, 2), (0.5, 0.5), (-1, -1)]):
+        body = "".join(f"if LEVEL {op} REQUIRED:\n    d{j}.Setting = 1\nelse:\n    d{j}.Setting = 2\n" for j, op in enumerate(["<", "<=", ">", ">=", "==", "!="]))
+        out.append((f"const:cmp_fold_if:{i}", HDR + f"LEVEL = {a_}\nREQUIRED = {b_}\n" + body + f"db.Setting = ({a_} >= {b_}) * 10 + ({a_} <= {b_}) + d0.Setting\n"))
     out.append(("const:true_constant_still_folds", HDR + "k = 6\nh = k * 7\ndb.Setting = h + d0.Setting\n"))
     return out
 
